@@ -60,6 +60,44 @@ func (e *Env) checkAxiomGlobals() error {
 	return nil
 }
 
+// checkImmutable: fields declared immutable are assigned only inside declared constructors.
+func (e *Env) checkImmutable() error {
+	if len(e.con.Immutable) == 0 {
+		return nil
+	}
+	for fn := range ssaAllFunctions(e.prog, e.spkg) {
+		root := fn
+		for root.Parent() != nil {
+			root = root.Parent()
+		}
+		if e.con.Ctors[e.keyOf(root)] {
+			continue
+		}
+		for _, b := range fn.Blocks {
+			for _, in := range b.Instrs {
+				st, ok := in.(*ssa.Store)
+				if !ok {
+					continue
+				}
+				fa, ok := st.Addr.(*ssa.FieldAddr)
+				if !ok {
+					continue
+				}
+				pt := derefType(fa.X.Type())
+				sty := structOf(pt)
+				if sty == nil {
+					continue
+				}
+				k := e.te.namedKey(pt) + "." + sty.Field(fa.Field).Name()
+				if e.con.Immutable[k] {
+					return fmt.Errorf("field %s is declared immutable but assigned in %s (%s)", k, e.keyOf(fn), e.posStr(in.Pos()))
+				}
+			}
+		}
+	}
+	return nil
+}
+
 type Env struct {
 	repo   string
 	fset   *token.FileSet
@@ -127,6 +165,9 @@ func loadEnv(repo string) (*Env, error) {
 		}
 	}
 	if err := e.checkAxiomGlobals(); err != nil {
+		return nil, err
+	}
+	if err := e.checkImmutable(); err != nil {
 		return nil, err
 	}
 	return e, nil
